@@ -466,7 +466,12 @@ impl<T: Object + DataSize> Lazy<T> {
     pub fn load(&self, resolve: &impl Resolve) -> Result<MaybeRef<T>> {
         self.cache.get_or_try_init(|| {
             match self.primitive {
-                Primitive::Reference(r) => resolve.get(Ref::new(r)).map(MaybeRef::Indirect),
+                Primitive::Reference(r) => match resolve.get(Ref::new(r)) {
+                    Ok(v) => Ok(MaybeRef::Indirect(v)),
+                    // a reference to an object that does not exist is a reference to null
+                    Err(e) if e.is_missing_object() => T::from_primitive(Primitive::Null, resolve).map(|o| MaybeRef::Direct(Arc::new(o))).map_err(|_| e),
+                    Err(e) => Err(e)
+                },
                 ref p => T::from_primitive(p.clone(), resolve).map(|o| MaybeRef::Direct(Arc::new(o))),
             }
         }).cloned()
